@@ -61,10 +61,10 @@ theorem findIP_q (h : Fam c A B T q fs) (i : String) (a : List (String × J)) :
     findIP [q] [Qown T q fs] (respA q i a) [] = .ok [[pointQ q i]] := by
   have hfs : findSelection q [Qown T q fs] = some (Qown T q fs) := by
     exact findSelection_head q q [] [] _ [] _ [] q (by simp)
-  unfold findIP
+  unfold findIP findIPW
   rw [hfs]
   simp [respA, J.lookup, selType, Qown, TypeRef.isNonNull, TypeRef.isList, extractID, bind, Except.bind, fmtID,
-    pointQ, findIP]
+    pointQ, findIPW]
 
 theorem parseOne_root (h : Fam c A B T q fs) (i : String) (a : List (String × J)) :
     parseOne ⟨rootStep A B T q fs, []⟩ (respA q i a)
